@@ -204,3 +204,101 @@ Section Facts.
       inversion IHq as [p' items ds E HI]; subst. constructor; [exact IHq|exact IHr].
   Qed.
 End Facts.
+
+(* ---- the fuel is never exhausted: the nesting depth of includes is bounded by the number of files ---- *)
+Section Fuel.
+  Variable fs : path -> option (list item).
+  Variable univ : list path.                      (* every existing file *)
+  Hypothesis univ_all : forall p, fs p <> None -> In p univ.
+
+  Definition unmarked (st : fstate) (p : path) : bool :=
+    match lookup (f_memo st) p with None => true | Some _ => false end.
+  Definition free (st : fstate) : nat := length (filter (unmarked st) univ).
+
+  Lemma filter_length_le (f g : path -> bool) l :
+    (forall x, f x = true -> g x = true) -> length (filter f l) <= length (filter g l).
+  Proof.
+    intros H. induction l as [|x r IH]; [apply le_n|]. cbn [filter].
+    destruct (f x) eqn:Ef.
+    - rewrite (H x Ef). cbn [length]. lia.
+    - destruct (g x); cbn [length]; lia.
+  Qed.
+
+  Lemma filter_length_lt (f g : path -> bool) l p :
+    (forall x, f x = true -> g x = true) -> In p l -> f p = false -> g p = true ->
+    length (filter f l) < length (filter g l).
+  Proof.
+    intros H Hin Hf Hg. induction l as [|x r IH]; [destruct Hin|]. cbn [filter].
+    destruct Hin as [->|Hin].
+    - rewrite Hf, Hg. cbn [length]. pose proof (filter_length_le f g r H). lia.
+    - specialize (IH Hin). destruct (f x) eqn:Ef.
+      + rewrite (H x Ef). cbn [length]. lia.
+      + destruct (g x); cbn [length]; lia.
+  Qed.
+
+  Lemma free_mono st st' : Mono st st' -> free st' <= free st.
+  Proof.
+    intros M. unfold free. apply filter_length_le. intros x Hx. unfold unmarked in *.
+    destruct (lookup (f_memo st) x) eqn:E; [|reflexivity].
+    exfalso. assert (Hne : lookup (f_memo st) x <> None) by congruence. specialize (M x Hne).
+    destruct (lookup (f_memo st') x); [discriminate|congruence].
+  Qed.
+
+  Definition NoFuelErr (process : fstate -> path -> fstate * fres) (bound : nat) : Prop :=
+    forall st q st' r, LogInv st -> free st < bound -> process st q = (st', r) -> r <> FErr EFuel.
+
+  Lemma run_items_fuel process bound : ProcLog process -> NoFuelErr process bound ->
+    forall its st st' r, LogInv st -> free st < bound -> run_items process its st = (st', r) -> r <> FErr EFuel.
+  Proof.
+    intros HL HN. induction its as [|it rest IH]; intros st st' r Hl Hf H; cbn [run_items] in H.
+    - injection H as <- <-. discriminate.
+    - destruct it as [q|d].
+      + destruct (process st q) as [st1 [nq|e]] eqn:Eq.
+        * destruct (HL st q st1 _ Hl Eq) as [Hl1 M1]. pose proof (free_mono st st1 M1) as Hfm.
+          destruct (run_items process rest st1) as [st2 [ns2|e]] eqn:Er; injection H as <- <-; [discriminate|].
+          apply (IH st1 st2 (FErr e) Hl1 ltac:(lia) Er).
+        * injection H as <- <-. apply (HN st q st1 (FErr e) Hl Hf Eq).
+      + destruct (run_items process rest st) as [st2 [ns2|e]] eqn:Er; injection H as <- <-; [discriminate|].
+        apply (IH st st2 (FErr e) Hl Hf Er).
+  Qed.
+
+  Theorem proc_fuel_enough fuel : NoFuelErr (proc fs fuel) fuel.
+  Proof.
+    induction fuel as [|k IH]; intros st p st' r Hl Hf H; [lia|]. cbn [proc] in H.
+    destruct (fs p) as [items|] eqn:Ef; [|injection H as <- <-; discriminate].
+    destruct (lookup (f_memo st) p) as [[r0|]|] eqn:El; try (injection H as <- <-; discriminate).
+    set (st1 := {| f_memo := (p, None) :: f_memo st; f_log := f_log st ++ [p] |}) in *.
+    assert (Hl1 : LogInv st1).
+    { destruct Hl as [Hn Hi]. split; cbn [st1 f_log f_memo].
+      - apply NoDup_app_end; [exact Hn|]. intros Hin. apply (Hi p Hin). exact El.
+      - intros q Hq. apply in_app_or in Hq. destruct Hq as [Hq|[<-|[]]].
+        + apply lookup_cons_ne. apply Hi. exact Hq.
+        + cbn [lookup]. rewrite Nat.eqb_refl. discriminate. }
+    assert (Hf1 : free st1 < k).
+    { assert (free st1 < free st); [|lia]. unfold free. apply (filter_length_lt _ _ univ p).
+      - intros x Hx. unfold unmarked in *. cbn [st1 f_memo lookup] in Hx. destruct (Nat.eqb p x); [discriminate|exact Hx].
+      - apply univ_all. congruence.
+      - unfold unmarked. cbn [st1 f_memo lookup]. rewrite Nat.eqb_refl. reflexivity.
+      - unfold unmarked. rewrite El. reflexivity. }
+    destruct (run_items (proc fs k) items st1) as [st2 [ns|e]] eqn:Er; injection H as <- <-; [discriminate|].
+    apply (run_items_fuel (proc fs k) k (proc_log fs k) IH items st1 st2 (FErr e) Hl1 Hf1 Er).
+  Qed.
+
+  (* a whole run: with more fuel than there are files no input file ever ends in EFuel *)
+  Theorem proc_mains_fuel_enough fuel : length univ < fuel ->
+    forall ps st st' rs, LogInv st -> proc_mains fs fuel st ps = (st', rs) -> ~ In (FErr EFuel) rs.
+  Proof.
+    intros Hb. induction ps as [|p0 r IH]; intros st st' rs Hl H; cbn [proc_mains] in H.
+    - injection H as <- <-. intros [].
+    - assert (Hf : free st < fuel).
+      { unfold free. pose proof (filter_length_le (unmarked st) (fun _ => true) univ (fun _ _ => eq_refl)) as Hle.
+        assert (E : filter (fun _ : path => true) univ = univ) by (clear; induction univ as [|x l IHl]; [reflexivity|cbn [filter]; rewrite IHl; reflexivity]).
+        rewrite E in Hle. lia. }
+      destruct (proc fs fuel st p0) as [st1 [n0|e]] eqn:E0.
+      + destruct (proc_log fs fuel st p0 st1 _ Hl E0) as [Hl1 _].
+        destruct (proc_mains fs fuel st1 r) as [st2 rs2] eqn:Er. injection H as <- <-.
+        intros [Hin|Hin]; [discriminate|]. exact (IH st1 st2 rs2 Hl1 Er Hin).
+      + injection H as <- <-. intros [Hin|[]]. injection Hin as ->.
+        exact (proc_fuel_enough fuel st p0 st1 (FErr EFuel) Hl Hf E0 eq_refl).
+  Qed.
+End Fuel.
